@@ -1,18 +1,55 @@
 #!/venv/bin/python
-"""Mutation driver: apply one catalogued edit to /repo, run checks, revert.
+"""Mutation driver: apply one catalogued edit (or a patch file) to a SCRATCH worktree of
+/repo, run the repository's tests there and the named checks against it (CSS_REPO), then
+remove the worktree.  /repo itself is never modified.
 
-usage: tools/mut.py [--tests] [--tier quick] [--only name,...] [--checks C03,C05]
+usage: tools/mut.py [--tests] [--tier quick] [--only name,...] [--checks C03,C05] [--patch file --name x]
 Catalogue: tools/mutants.py (list of dicts name,file,old,new,checks,note).
-Never leaves /repo modified (git checkout -- . in a finally block).
 """
-import argparse, json, os, subprocess, sys, time
+import argparse, json, os, shutil, subprocess, sys, time
 
 sys.path.insert(0, os.path.dirname(__file__))
 REPO = "/repo"
+SCRATCH = "/tmp/mutwt"
 
 
 def sh(cmd, **kw):
     return subprocess.run(cmd, shell=True, capture_output=True, text=True, **kw)
+
+
+def make_worktree(name):
+    os.makedirs(SCRATCH, exist_ok=True)
+    wt = os.path.join(SCRATCH, name)
+    sh(f"git -C {REPO} worktree remove --force {wt}")
+    shutil.rmtree(wt, ignore_errors=True)
+    r = sh(f"git -C {REPO} worktree add --detach {wt} HEAD")
+    assert r.returncode == 0, r.stderr
+    return wt
+
+
+def drop_worktree(wt):
+    sh(f"git -C {REPO} worktree remove --force {wt}")
+    shutil.rmtree(wt, ignore_errors=True)
+    sh(f"git -C {REPO} worktree prune")
+
+
+def evaluate(name, wt, checks, tier, tests, evidence_dir=None):
+    res = {"name": name, "checks": {}}
+    if tests:
+        t = sh(f"cd {wt} && /venv/bin/python -m pytest -q -x -p no:cacheprovider -n 8 --timeout=900 2>&1 | tail -3")
+        res["tests"] = "green" if " passed" in t.stdout and "failed" not in t.stdout and "error" not in t.stdout.lower() else "RED"
+    for c in checks:
+        t0 = time.time()
+        r = sh(f"cd /verif && CSS_REPO={wt} ./check {c} --tier {tier} --no-confirm", timeout=7200)
+        groups = [l.strip() for l in r.stdout.splitlines() if l.startswith("  ")]
+        res["checks"][c] = {"rc": r.returncode, "s": round(time.time() - t0, 1), "groups": groups[:3]}
+    line = f"{name:45s} tests={res.get('tests','-'):5s} " + " ".join(
+        f"{c}:{'CAUGHT' if v['rc']==1 else ('silent' if v['rc']==0 else 'ERR'+str(v['rc']))}({v['s']}s)" for c, v in res["checks"].items())
+    print(line, flush=True)
+    for c, v in res["checks"].items():
+        for g in v["groups"][:1]:
+            print("      ", g[:220], flush=True)
+    return res
 
 
 def main():
@@ -22,44 +59,43 @@ def main():
     ap.add_argument("--only", default="")
     ap.add_argument("--checks", default="")
     ap.add_argument("--out", default="")
+    ap.add_argument("--patch", default="")
+    ap.add_argument("--name", default="patch")
     args = ap.parse_args()
-    from mutants import MUTANTS
-
-    only = set(filter(None, args.only.split(",")))
-    assert sh("git -C /repo status --porcelain").stdout.strip() == "", "/repo not clean"
     results = []
-    for m in MUTANTS:
-        if only and m["name"] not in only:
-            continue
-        path = os.path.join(REPO, m["file"])
-        src = open(path).read()
-        if src.count(m["old"]) != 1:
-            print(f"!! {m['name']}: old text occurs {src.count(m['old'])} times", flush=True)
-            continue
-        checks = args.checks.split(",") if args.checks else m.get("checks", [])
-        res = {"name": m["name"], "checks": {}}
+    if args.patch:
+        wt = make_worktree(args.name)
         try:
-            open(path, "w").write(src.replace(m["old"], m["new"]))
-            if args.tests:
-                t = sh("cd /repo && /venv/bin/python -m pytest -q -x -p no:cacheprovider -n 8 --timeout=900 2>&1 | tail -3")
-                res["tests"] = "green" if " passed" in t.stdout and "failed" not in t.stdout and "error" not in t.stdout.lower() else "RED"
-            for c in checks:
-                t0 = time.time()
-                r = sh(f"cd /verif && ./check {c} --tier {args.tier} --no-confirm", timeout=3600)
-                groups = [l.strip() for l in r.stdout.splitlines() if l.startswith("  ")]
-                res["checks"][c] = {"rc": r.returncode, "s": round(time.time() - t0, 1), "groups": groups[:3]}
+            r = sh(f"git -C {wt} apply {os.path.abspath(args.patch)}")
+            if r.returncode != 0:
+                print("!! patch does not apply:", r.stderr[:300])
+                return
+            results.append(evaluate(args.name, wt, args.checks.split(","), args.tier, args.tests))
         finally:
-            sh("git -C /repo checkout -- .")
-        line = f"{m['name']:45s} tests={res.get('tests','-'):5s} " + " ".join(
-            f"{c}:{'CAUGHT' if v['rc']==1 else ('silent' if v['rc']==0 else 'ERR'+str(v['rc']))}({v['s']}s)" for c, v in res["checks"].items())
-        print(line, flush=True)
-        for c, v in res["checks"].items():
-            for g in v["groups"][:1]:
-                print("      ", g[:200], flush=True)
-        results.append(res)
+            drop_worktree(wt)
+    else:
+        from mutants import MUTANTS
+
+        only = set(filter(None, args.only.split(",")))
+        for m in MUTANTS:
+            if only and m["name"] not in only:
+                continue
+            wt = make_worktree(m["name"])
+            try:
+                path = os.path.join(wt, m["file"])
+                src = open(path).read()
+                if src.count(m["old"]) != 1:
+                    print(f"!! {m['name']}: old text occurs {src.count(m['old'])} times", flush=True)
+                    continue
+                open(path, "w").write(src.replace(m["old"], m["new"]))
+                checks = args.checks.split(",") if args.checks else m.get("checks", [])
+                results.append(evaluate(m["name"], wt, checks, args.tier, args.tests))
+            finally:
+                drop_worktree(wt)
     if args.out:
         json.dump(results, open(args.out, "w"), indent=1)
-    assert sh("git -C /repo status --porcelain").stdout.strip() == ""
+    # evidence files were rewritten by runs against a scratch tree: they do not describe /repo
+    print("NOTE: evidence/*.json of the checks run above now describe a scratch tree; re-run the checks on /repo before committing evidence")
 
 
 if __name__ == "__main__":
